@@ -20,23 +20,23 @@ inductive Const where
   | flt (repr : String) (num : Int) (den : Nat)
   | str (s : String)
   | none
-  deriving Repr, BEq, DecidableEq, Inhabited, Hashable
+  deriving Repr, DecidableEq, Inhabited, Hashable
 
 inductive NaryOp where
   | sum | prod | bor | bxor | band | lor | land | min | max
-  deriving Repr, BEq, DecidableEq, Inhabited, Hashable
+  deriving Repr, DecidableEq, Inhabited, Hashable
 
 inductive BinOp where
   | quot | floordiv | rem | pow | lshift | rshift
-  deriving Repr, BEq, DecidableEq, Inhabited, Hashable
+  deriving Repr, DecidableEq, Inhabited, Hashable
 
 inductive UnOp where
   | bnot | lnot
-  deriving Repr, BEq, DecidableEq, Inhabited, Hashable
+  deriving Repr, DecidableEq, Inhabited, Hashable
 
 inductive CmpOp where
   | eq | ne | lt | le | gt | ge
-  deriving Repr, BEq, DecidableEq, Inhabited, Hashable
+  deriving Repr, DecidableEq, Inhabited, Hashable
 
 inductive Expr where
   | const (c : Const)
@@ -121,6 +121,25 @@ def Expr.sizeL : List Expr → Nat
   | [] => 0
   | c :: cs => c.size + Expr.sizeL cs
 end
+
+/-- Direct expression-valued children, in dataclass field order. -/
+def Expr.children : Expr → List Expr
+  | .nary _ cs => cs
+  | .bin _ a b => [a, b]
+  | .un _ a => [a]
+  | .cmp _ a b => [a, b]
+  | .ite c t e => [c, t, e]
+  | .call f as => f :: as
+  | .callKw f as _ vs => f :: (as ++ vs)
+  | .subscript a i => [a, i]
+  | .lookup a _ => [a]
+  | .cse c _ _ => [c]
+  | .subst c _ xs => c :: xs
+  | .deriv c _ => [c]
+  | .slice cs => cs
+  | .tuple cs => cs
+  | .list cs => cs
+  | _ => []
 
 /-! `list` nodes are Python lists: unhashable, so is every node that contains one. -/
 mutual
